@@ -304,7 +304,7 @@ def main():
     programs = checked = monos = kernels = muts = 0
     for it, (st, val) in zip(items, results):
         if st != "ok":
-            run.inconc(f"{it['id']}: job {st} {str(val)[:300] if val else ''}")
+            run.job_failed(it['id'], st, val)
             continue
         run.add_stats(val["stats"])
         for r in val["refusals"]:
